@@ -229,3 +229,46 @@ def load(R):
                           ]},
                labels={"loop_havoc_heap": ["hashed_bytes", "rule_hash"], "loop_keep": ["_hash_rules", "rules", "src_fn", "qualified_name_without_version"]},
                modifies=["self._hash_rules", "heap:rule_hash", "heap:hashed_bytes", "ghost:rules"])
+
+    # ---------------------------------------------------------------- C03: rule keys identify what a rule hashes; rules are ordered and compared by key
+    # code_hash.py documents HashRule.key as "a string used to uniquely identify, and canonically order, this hash rule".  The version is the digest
+    # of the rule hashes in key order; it is a function of the collected SET of rules only if (1) rules are compared / hashed / ordered by key
+    # (HashRule.__eq__ / __hash__ / __lt__), so a set never holds two rules with one key and sorted() is total on it (obligation
+    # `sort-order-is-total-on-the-set-members` in _recompute_version), and (2) the key names the hashed entity unambiguously: kind, the
+    # parent symbol's namespace and the entity's identity in the program text -- module and QUALIFIED name for a plain function, the qualified name
+    # without version for a memento function, the (dotted) symbol for a variable or an undefined symbol.
+    R.set_identity_attr = "key"
+    R.set_order_attr = "key"
+    for a in ("__module__", "__qualname__", "__name__"):
+        R.attr(a, TStr)
+    R.attr("key", TStr)
+    rule_fields = dict(key=TStr, parent_symbol=TOpt(TStr), symbol=TStr, first_level=TBool, rule_hash=TObj())
+    R.entity("HashRule", ("code_hash", "HashRule"), dict(rule_fields))
+    R.entity("NonMementoFunctionHashRule", ("code_hash", "NonMementoFunctionHashRule"), dict(rule_fields, src_fn=TObj(), resolver=TObj()))
+    R.entity("MementoFunctionHashRule", ("code_hash", "MementoFunctionHashRule"), dict(rule_fields, memento_fn=TObj(), resolver=TObj()))
+    R.entity("GlobalVariableHashRule", ("code_hash", "GlobalVariableHashRule"), dict(rule_fields, var=TObj(), resolver=TObj(), last_value=TObj()))
+    R.entity("UndefinedSymbolHashRule", ("code_hash", "UndefinedSymbolHashRule"), dict(rule_fields, ref=TObj(), ref_is_global_table=TBool))
+    R.spec("NS", ["parent_symbol"], "'None' if parent_symbol is None else parent_symbol")
+    COMMON = ["self.parent_symbol == parent_symbol", "self.symbol == symbol", "self.first_level == first_level", "self.rule_hash is None"]
+    C = "code_hash:"
+    R.contract(C + "NonMementoFunctionHashRule.__init__", prop="C03",
+               types={"self": TEnt("NonMementoFunctionHashRule"), "parent_symbol": TOpt(TStr), "symbol": TStr, "resolver": TObj(), "obj": TObj("nn:function"), "first_level": TBool},
+               ensures=["self.key == 'Function;' + NS(parent_symbol) + ';' + obj.__module__ + ':' + obj.__qualname__", "same(self.src_fn, obj)"] + COMMON,
+               modifies=["self.*"])
+    R.attr("qualified_name_without_version", TStr)
+    R.contract(C + "MementoFunctionHashRule.__init__", prop="C03",
+               types={"self": TEnt("MementoFunctionHashRule"), "parent_symbol": TOpt(TStr), "symbol": TStr, "resolver": TObj(), "obj": TObj("nn:MementoFunctionType"), "first_level": TBool},
+               ensures=["self.key == 'MementoFunction;' + NS(parent_symbol) + ';' + obj.qualified_name_without_version", "same(self.memento_fn, obj)"] + COMMON,
+               modifies=["self.*"])
+    R.contract(C + "GlobalVariableHashRule.__init__", prop="C03",
+               types={"self": TEnt("GlobalVariableHashRule"), "parent_symbol": TOpt(TStr), "symbol": TStr, "resolver": TObj(), "ref": TObj(), "last_value": TObj(), "first_level": TBool},
+               ensures=["self.key == 'GlobalVariable;' + NS(parent_symbol) + ';' + symbol"] + COMMON, modifies=["self.*"])
+    R.contract(C + "UndefinedSymbolHashRule.__init__", prop="C03",
+               types={"self": TEnt("UndefinedSymbolHashRule"), "ref": TObj(), "parent_symbol": TOpt(TStr), "symbol": TStr, "first_level": TBool, "ref_is_global_table": TBool},
+               ensures=["self.key == 'UndefinedSymbol;' + NS(parent_symbol) + ';' + symbol"] + COMMON, modifies=["self.*"])
+    HR = TEnt("HashRule")
+    R.uf("py_hash_str", [TStr], TInt)
+    R.constructors["hash"] = lambda ex, args, kwargs: VInt(R.ufs["py_hash_str"][0](ex.to_term(args[0], TStr)))
+    R.contract(C + "HashRule.__eq__", prop="C03", types={"self": HR, "other": HR}, returns=TBool, ensures=["result == (self.key == other.key)"])
+    R.contract(C + "HashRule.__lt__", prop="C03", types={"self": HR, "other": HR}, returns=TBool, ensures=["result == (self.key < other.key)"])
+    R.contract(C + "HashRule.__hash__", prop="C03", types={"self": HR}, returns=TInt, ensures=["result == py_hash_str(self.key)"])
